@@ -6,6 +6,8 @@ package main
 import (
 	"fmt"
 	"go/token"
+	"go/types"
+	"sort"
 	"strings"
 
 	"golang.org/x/tools/go/ssa"
@@ -14,7 +16,7 @@ import (
 func init() {
 	register(&propDef{
 		id: "C04",
-		explain: "Structural necessary conditions of 'a client call returns the response to its own request': (R1) in the transport's RoundTrip a connection obtained from AcquireConn is, on every path, closed, released to the pool, or handed to the stream-close closure exactly once; (R2) it is released to the pool only on paths where the response was read without error; (R3) inside the stream-close closure the connection is pooled only under a condition that depends on the body having been read to its end (and on the close decision and the caller's error); (R4) in the pipelining client a work item is given back to the pool by the caller only when it was never queued or its completion was received - never after a timeout while the connection goroutines still hold it; the pipeline writer hands every request it wrote either to the reader queue or completes it with an error and stops. Not decided: interleavings, slow or partial servers, byte-level framing of responses (C03's mirror).",
+		explain: "Structural necessary conditions of 'a client call returns the response to its own request': (R1) in the transport's RoundTrip a connection obtained from AcquireConn is, on every path, closed, released to the pool, or handed to the stream-close closure exactly once; (R2) it is released to the pool only on paths where the response was read without error; (R3) inside the stream-close closure the connection is pooled only under a condition that depends on the body having been read to its end (and on the close decision and the caller's error); (R4) in the pipelining client a work item is given back to the pool by the caller only when it was never queued or its completion was received - never after a timeout while the connection goroutines still hold it; the pipeline writer hands every request it wrote either to the reader queue or completes it with an error and stops; (R5) the response-header fields that closure consults (found by reading the closure and its callees on every run) are never overwritten by a header reset/parse before the body stream of the same Response is closed, in any function of the module. Not decided: interleavings, slow or partial servers, byte-level framing of responses (C03's mirror).",
 		run: runC04,
 	})
 	register(&propDef{
@@ -151,6 +153,18 @@ func runC04(p *Prog, r *Report) {
 				})
 			}
 			r.Floor("R3", "ReleaseConn sites in stream-close closures", ncl, 1)
+			// R5: the header state that closure consults is still intact when it runs
+			for _, an := range rt.AnonFuncs {
+				has := false
+				allCalls(an, func(b *ssa.BasicBlock, c ssa.CallInstruction) {
+					if isCallTo(c, relC) {
+						has = true
+					}
+				})
+				if has {
+					closeInputsRule(p, r, an)
+				}
+			}
 		}
 	}
 	// R4a: pipelineWork typestate in the callers
@@ -729,4 +743,200 @@ func holdsVar(addr, v ssa.Value) bool {
 		}
 	}
 	return false
+}
+
+// closeInputsRule (C04.R5): the stream-close closure installed by the transport
+// decides between pooling and closing the connection from state of the
+// response header (Connection: close, Content-Length through
+// requestStream.fullyRead). That decision is only right while the header still
+// describes the response whose body is being abandoned. So in every function of
+// the module: once a call has overwritten all of those header fields of some
+// Response (Header.Reset, Header.Read ...), no call that may close the body
+// stream of the same Response follows on any path - the stream has to be
+// closed first.
+func closeInputsRule(p *Prog, r *Report, closure *ssa.Function) {
+	respHdr := p.NamedType("ResponseHeader")
+	if respHdr == nil {
+		r.Undecided("R5", "type ResponseHeader", "not found")
+		return
+	}
+	isHdr := func(v ssa.Value) bool {
+		n := typeNameOf(v)
+		return n == "ResponseHeader" || n == "header" // the shared part is an embedded struct
+	}
+	inputs := map[*types.Var]bool{}
+	seen := map[*ssa.Function]bool{}
+	var reads func(f *ssa.Function, depth int)
+	reads = func(f *ssa.Function, depth int) {
+		if f == nil || seen[f] || depth > 4 || !inModule(f) {
+			return
+		}
+		seen[f] = true
+		for _, b := range f.Blocks {
+			for _, in := range b.Instrs {
+				if u, ok := in.(*ssa.UnOp); ok && u.Op == token.MUL {
+					if fa, ok := u.X.(*ssa.FieldAddr); ok && isHdr(fa.X) {
+						inputs[fieldVar(fa.X.Type(), fa.Field)] = true
+					}
+				}
+				c, ok := in.(ssa.CallInstruction)
+				if !ok {
+					continue
+				}
+				if g := c.Common().StaticCallee(); g != nil {
+					reads(g, depth+1)
+				} else if c.Common().IsInvoke() {
+					// the stream reads its framing through an interface; the transport installs it over &resp.Header
+					if m := p.Func("(*ResponseHeader)." + c.Common().Method.Name()); m != nil {
+						reads(m, depth+1)
+					}
+				}
+			}
+		}
+	}
+	reads(closure, 0)
+	var inNames []string
+	for fv := range inputs {
+		inNames = append(inNames, fv.Name())
+	}
+	sort.Strings(inNames)
+	r.Floor("R5", "response header fields the stream-close closure consults ("+strings.Join(inNames, ",")+")", len(inputs), 2)
+	if len(inputs) == 0 {
+		return
+	}
+	mods := p.modInfo()
+	clobbers := func(g *ssa.Function) bool {
+		if g == nil || !inModule(g) || (recvTypeName(g) != "ResponseHeader" && recvTypeName(g) != "header") {
+			return false
+		}
+		// must-write: every consulted field is assigned on every path of g (a reset or a re-parse, not a setter)
+		w := fieldsWritten(p, g, 0, 4)
+		for fv := range inputs {
+			if !coveredBy(w, "header."+fv.Name()) && !coveredBy(w, fv.Name()) {
+				return false
+			}
+		}
+		return true
+	}
+	closer := p.Func("(*Response).closeBodyStream")
+	if closer == nil {
+		r.Undecided("R5", "(*Response).closeBodyStream", "not found")
+		return
+	}
+	mayClose := map[*ssa.Function]int8{}
+	var closes func(g *ssa.Function, depth int) bool
+	closes = func(g *ssa.Function, depth int) bool {
+		if g == closer {
+			return true
+		}
+		if g == nil || !inModule(g) || depth > 5 {
+			return false
+		}
+		if v, ok := mayClose[g]; ok {
+			return v == 1
+		}
+		mayClose[g] = 0
+		res := false
+		allCalls(g, func(b *ssa.BasicBlock, c ssa.CallInstruction) {
+			if h := c.Common().StaticCallee(); h != nil && recvTypeName(h) == "Response" && closes(h, depth+1) {
+				res = true
+			}
+		})
+		if res {
+			mayClose[g] = 1
+		}
+		return res
+	}
+	var sameAddr func(a, b ssa.Value, d int) bool
+	sameAddr = func(a, b ssa.Value, d int) bool {
+		if a == b {
+			return true
+		}
+		if d > 4 {
+			return false
+		}
+		fa, ok1 := a.(*ssa.FieldAddr)
+		fb, ok2 := b.(*ssa.FieldAddr)
+		if ok1 && ok2 {
+			return fa.Field == fb.Field && sameAddr(fa.X, fb.X, d+1)
+		}
+		ua, ok1 := a.(*ssa.UnOp)
+		ub, ok2 := b.(*ssa.UnOp)
+		if ok1 && ok2 && ua.Op == token.MUL && ub.Op == token.MUL {
+			return sameAddr(ua.X, ub.X, d+1)
+		}
+		return false
+	}
+	nclob := 0
+	for _, fn := range p.SrcFuncs() {
+		for _, b := range fn.Blocks {
+			for _, in := range b.Instrs {
+				ca, ok := in.(ssa.CallInstruction)
+				if !ok || !clobbers(ca.Common().StaticCallee()) || len(ca.Common().Args) == 0 {
+					continue
+				}
+				hfa, ok := ca.Common().Args[0].(*ssa.FieldAddr)
+				if ok && typeNameOf(hfa.X) == "ResponseHeader" {
+					hfa, ok = hfa.X.(*ssa.FieldAddr) // method of the embedded part
+				}
+				if !ok || typeNameOf(hfa.X) != "Response" {
+					continue
+				}
+				nclob++
+				resp := hfa.X
+				hit, path := reachAvoiding(fn, in, func(i ssa.Instruction) bool {
+					cb, ok := i.(ssa.CallInstruction)
+					if !ok || len(cb.Common().Args) == 0 {
+						return false
+					}
+					g := cb.Common().StaticCallee()
+					return g != nil && recvTypeName(g) == "Response" && closes(g, 0) && sameAddr(cb.Common().Args[0], resp, 0)
+				}, nil, nil)
+				if hit == nil {
+					r.Check("R5", fmt.Sprintf("%s: the response header is not overwritten (%s) before the body stream of the same response is closed", funcName(fn), shortType(calleeName(ca))), true, p.Pos(in.Pos()), "")
+					continue
+				}
+				// the stream is already gone when a closer of the same response dominates the overwrite and nothing installs a stream in between
+				closedBefore := false
+				for _, bb := range fn.Blocks {
+					for _, i0 := range bb.Instrs {
+						c0, ok := i0.(ssa.CallInstruction)
+						if !ok || len(c0.Common().Args) == 0 || i0 == in {
+							continue
+						}
+						g := c0.Common().StaticCallee()
+						if g == nil || recvTypeName(g) != "Response" || !closes(g, 0) || !sameAddr(c0.Common().Args[0], resp, 0) || !dominatesInstr(i0, in) {
+							continue
+						}
+						inst, _ := reachAvoiding(fn, i0, func(i ssa.Instruction) bool {
+							if i == hit {
+								return false
+							}
+							if st, ok := i.(*ssa.Store); ok {
+								if _, fv := fieldOfAddr(st.Addr); fv != nil && fv.Name() == "bodyStream" && !isNilConst(st.Val) {
+									return true
+								}
+							}
+							if cc, ok := i.(ssa.CallInstruction); ok && i != in {
+								if g2 := cc.Common().StaticCallee(); g2 != nil && inModule(g2) {
+									for fv := range mods.of(g2) {
+										if fv.Name() == "bodyStream" {
+											return true
+										}
+									}
+								}
+							}
+							return false
+						}, func(i ssa.Instruction) bool { return i == hit }, nil)
+						if inst == nil {
+							closedBefore = true
+						}
+					}
+				}
+				r.Check("R5", fmt.Sprintf("%s: the response header is not overwritten (%s) before the body stream of the same response is closed", funcName(fn), shortType(calleeName(ca))), closedBefore, p.Pos(hit.Pos()),
+					fmt.Sprintf("%s overwrites %s and a later call (%s) may still close the body stream: the stream-close callback of the client then decides from a reset header that the body was read to its end and pools a connection with unread response bytes", calleeName(ca), strings.Join(inNames, ","), calleeName(hit.(ssa.CallInstruction))), blocksString(p, path)...)
+			}
+		}
+	}
+	r.Floor("R5", "calls overwriting the header of a Response", nclob, 3)
 }
